@@ -12,7 +12,7 @@ RULE = ("events: write10/12/16 and writesame10/16 (incl. unmap, anchor, ndob) ov
         "transfer lengths {0,1,2} x payloads {A,B} plus one all-flags variant per command and one write per payload container kind (bytes, writable / read-only memoryview window at a non-zero offset of a larger buffer), WRITE SAME with block counts 0xFFFF / 0x10000 / 0x10003 / 0xFFFFFFFF, synchronizecache10/16; BFS to depth 2 (quick) / 3 "
         "(thorough) de-duplicating on disk content, per block size in {512, 4096}; each history is replayed from scratch through the facade on a "
         "fresh SG_IO device and a fresh iSCSI device. In every state every read form (read10/12/16, lengths 1..2, one all-flags variant) over every "
-        "touched LBA and its neighbours, READ CAPACITY(10/16) and INQUIRY are compared with the model and across transports. two threads sharing one facade (a refused WRITE(10) and a READ(10)): all schedules with at most 1 preemption at every source line of the library and at most 2 at the lines of the device and facade modules, each thread sees its own command's outcome. write / re-point the device path (a link) to another disk / write / read / INQUIRY through init_device and SCSIDevice. states = distinct "
+        "touched LBA and its neighbours, READ CAPACITY(10/16) and INQUIRY are compared with the model and across transports. two threads sharing one facade (a refused WRITE(10) and a READ(10)): all schedules with at most 1 preemption at every source line of the library and at most 2 at the lines of the device and facade modules, each thread sees its own command's outcome. Block targets reporting a device type the facade does not list (0Eh, 14h) with the SBC table assigned to the device by the caller before / after / before and after attaching, 9 histories x both block sizes x both transports, read back in full. write / re-point the device path (a link) to another disk / write / read / INQUIRY through init_device and SCSIDevice. states = distinct "
         "disk contents, transitions = write-type events applied.")
 ASSUMPTIONS = [
     "the target (vf/sim/target.py) decodes CDBs with the oracle's own tables and stores blocks from the data-out buffer it is handed; the reference model is a dict updated from the *arguments* of the facade calls",
@@ -75,7 +75,7 @@ def partitions(tier):
         for i in range(len(evs)):
             parts.append([bs, i])
         parts.append([bs, -1])
-    parts += [["shared", "sgio"], ["shared", "iscsi"], ["relink"]]
+    parts += [["shared", "sgio"], ["shared", "iscsi"], ["relink"], ["preset"]]
     return parts
 
 
@@ -138,7 +138,7 @@ def do_event(s, ev, bs):
     return getattr(s, cmd)(lba, n, **kw)
 
 
-def observe(s, model, bs, where, tr, ident=(b"VERIF   ", b"SIMULATED TARGET", b"0001")):
+def observe(s, model, bs, where, tr, ident=(b"VERIF   ", b"SIMULATED TARGET", b"0001"), pdt=0):
     """read everything back; returns (violations, observation tuple)"""
     out = []
     obs = []
@@ -179,7 +179,7 @@ def observe(s, model, bs, where, tr, ident=(b"VERIF   ", b"SIMULATED TARGET", b"
         if r16.get("returned_lba") != BIG - 1 or r16.get("block_length") != bs:
             out.append(("%s/readcapacity16" % tr, "%s: READ CAPACITY(16) -> %r" % (where, r16)))
         if (bytes(inq.get("t10_vendor_identification", b"")) != ident[0] or bytes(inq.get("product_identification", b"")) != ident[1]
-                or bytes(inq.get("product_revision_level", b"")) != ident[2] or inq.get("peripheral_device_type") != 0):
+                or bytes(inq.get("product_revision_level", b"")) != ident[2] or inq.get("peripheral_device_type") != pdt):
             out.append(("%s/inquiry" % tr, "%s: INQUIRY reports %r / %r / %r, the target is %r" % (
                 where, bytes(inq.get("t10_vendor_identification", b"")), bytes(inq.get("product_identification", b"")),
                 bytes(inq.get("product_revision_level", b"")), ident)))
@@ -192,8 +192,14 @@ def observe(s, model, bs, where, tr, ident=(b"VERIF   ", b"SIMULATED TARGET", b"
 _SERIAL = 0
 
 
-def run_history(bs, hist, check_all=True):
-    """replay hist on fresh rigs of both transports; returns (violations, canonical state, obs)"""
+PRESET_TYPES = (0x0E, 0x14)        # simplified direct-access (RBC) and host-managed zoned block devices: block targets the facade has no entry for
+PRESET_MODES = ("before", "after", "both")
+
+
+def run_history(bs, hist, check_all=True, pdt=0, preset=None):
+    """replay hist on fresh rigs of both transports; returns (violations, canonical state, obs).
+    pdt/preset: a conformant block target that reports a device type the facade does not list; the caller assigns the SBC table to the
+    device (as the device classes' docstrings describe) before and/or after attaching the facade"""
     install.ensure()
     out = []
     model = Model()
@@ -203,12 +209,18 @@ def run_history(bs, hist, check_all=True):
     ident = {tr: (("VSG%05d" % (_SERIAL % 100000)).encode() if tr == "sgio" else ("VIS%05d" % (_SERIAL % 100000)).encode(),
                   ("TARGET %s %06d" % (tr[:2].upper(), _SERIAL % 1000000)).encode().ljust(16), ("%04d" % (_SERIAL % 10000)).encode())
              for tr in ("sgio", "iscsi")}
-    rigs = [harness.Rig(tr, 0x00, blocksize=bs, nblocks=BIG, vendor=ident[tr][0], product=ident[tr][1], revision=ident[tr][2])
+    rigs = [harness.Rig(tr, pdt, blocksize=bs, nblocks=BIG, vendor=ident[tr][0], product=ident[tr][1], revision=ident[tr][2])
             for tr in ("sgio", "iscsi")]
     for r in rigs:
         r.ident = ident[r.transport]
     try:
+        if preset in ("before", "both"):
+            for r in rigs:
+                r.dev.opcodes = harness.opcode_set("sbc")
         fac = [r.facade(blocksize=bs) for r in rigs]
+        if preset in ("after", "both"):
+            for r in rigs:
+                r.dev.opcodes = harness.opcode_set("sbc")
         for i, ev in enumerate(hist):
             apply_model(model, ev, bs)
             for r, s in zip(rigs, fac):
@@ -216,10 +228,10 @@ def run_history(bs, hist, check_all=True):
                     do_event(s, ev, bs)
                 except Exception as e:   # noqa: BLE001
                     out.append(("%s/%s/raises" % (r.transport, ev[0]), "step %d of %r: raised %s: %s" % (i, hist, type(e).__name__, e)))
-        where = "after %r (block size %d)" % (hist, bs)
+        where = "after %r (block size %d)" % (hist, bs) + (", device type %#04x with the SBC table assigned by the caller %s attaching" % (pdt, preset) if preset else "")
         observations = []
         for r, s in zip(rigs, fac):
-            v, o = observe(s, model, bs, where, r.transport, r.ident)
+            v, o = observe(s, model, bs, where, r.transport, r.ident, pdt)
             out += v
             observations.append(o)
             probes = sorted(x for x in (set(model.probes()) | set(r.target.disk)) if 0 <= x < BIG)
@@ -391,7 +403,18 @@ def run_relink(kind, cmdw, cmdr):
     return out
 
 
+def preset_histories():
+    w10, w12, w16 = ("write10", 1, 1, "A", ()), ("write12", (1 << 32) - 2, 2, "B", ()), ("write16", 1 << 32, 1, "A", ())
+    s10, s16 = ("writesame10", 0, 2, "A", ()), ("writesame16", (1 << 40) + 3, 1, "A", ())
+    assert all(e in events() for e in (w10, w12, w16, s10, s16))
+    return [[], [w10], [w12], [w16], [s10], [s16], [w10, s16], [s10, w16], [w10, w12, w16]]
+
+
 def run_case(case):
+    if case[0] == "preset":
+        _, pdt, mode, bs, hist = case
+        hist = [(e[0], e[1], e[2], e[3], tuple(tuple(f) for f in e[4])) for e in hist]
+        return run_history(bs, hist, pdt=pdt, preset=mode)[0]
     if case[0] == "relink":
         return run_relink(*case[1:])
     if case[0] == "shared":
@@ -410,6 +433,24 @@ def run_partition(part, tier, seed):
     acc = Acc(seed)
     if part[0] == "shared":
         run_shared(part[1], None, acc)
+        return acc
+    if part[0] == "preset":
+        for pdt in PRESET_TYPES:
+            for mode in PRESET_MODES:
+                for bs in (512, 4096):
+                    for hist in preset_histories():
+                        case = ["preset", pdt, mode, bs, [list(e[:4]) + [list(e[4])] for e in hist]]
+                        acc.case(case, nontrivial=True, key=repr(case))
+                        try:
+                            v = run_history(bs, hist, pdt=pdt, preset=mode)[0]
+                        except Exception:
+                            import traceback
+                            v = [("harness_error", traceback.format_exc()[-600:])]
+                        for k, w in v:
+                            acc.violation("preset/" + k, w, case)
+                        acc.outcome((pdt, mode, bs, len(hist), tuple(k for k, _ in v)))
+                        acc.transitions += len(hist) + 1
+                        acc.traces += 1
         return acc
     if part[0] == "relink":
         for kind in ("repoint", "replace", "direct"):
